@@ -85,9 +85,9 @@ func (u *Unit) loopContext(n ast.Node) []string {
 			if l.Body.Pos() <= n.Pos() && n.End() <= l.Body.End() {
 				c := "for"
 				if be, ok := ast.Unparen(l.Cond).(*ast.BinaryExpr); ok && be.Op == token.LSS && identOf(be.X) != nil {
-					c = "range " + u.argShape(be.Y, l, 1)
+					c = "range " + u.argShape(be.Y, l.Cond, 1)
 				} else if l.Cond != nil {
-					c += " " + u.argShape(l.Cond, l, 1)
+					c += " " + u.argShape(l.Cond, l.Cond, 1)
 				}
 				out = append(out, c)
 			}
@@ -288,7 +288,7 @@ func (r *Run) CheckFrame(rule, name string, scope Scope, min int) {
 func (u *Unit) rangeOperandShape(l *ast.RangeStmt, deep bool) string {
 	sh := ""
 	if deep {
-		sh = u.argShape(l.X, l, 1)
+		sh = u.argShape(l.X, l.X, 1)
 	} else {
 		sh = u.shapeOf(l.X)
 	}
